@@ -71,6 +71,36 @@ def check_one(geo, bud, cfgs, plain=False, with_batches=False, states=None):
             got = [list(b) for b in s2.batch_sampler]
         except AssertionError as e:
             return "batch_sampler_ends_inside_batch", repr(e), len(impl), None
+        # an iteration that is abandoned part-way (a peek at the first batch, a break, an exception in the training loop)
+        # must leave nothing behind: the next full pass over the same object equals the pass of a fresh object
+        for k in sorted({1, len(got) // 2} - {0}):
+            if k >= len(got):
+                continue
+            try:
+                it = iter(s2.batch_sampler)
+                for _ in range(k):
+                    next(it)
+                del it
+                again = [list(b) for b in s2.batch_sampler]
+            except Exception as e:
+                return f"iteration_after_abandoned_one_exception:{type(e).__name__}", repr(e), len(impl), None
+            if again != got:
+                d = next((i for i, (a, b) in enumerate(zip(again, got)) if a != b), min(len(again), len(got)))
+                return "batches_after_abandoned_iteration_differ", dict(abandoned_after_batches=k, first_diff_at=d, fresh=got[d:d + 3],
+                                                                        after=again[d:d + 3]), len(impl), None
+            try:
+                it = iter(s2)
+                for _ in range(k):
+                    next(it)
+                del it
+                del log2[:]
+                impl3, _ = ic.impl_events(s2, log2, horizon)
+            except Exception as e:
+                return f"iteration_after_abandoned_one_exception:{type(e).__name__}", repr(e), len(impl), None
+            if impl3 != impl:
+                d = ic.first_diff(impl, impl3)
+                return "stream_after_abandoned_iteration_differs", dict(abandoned_after_items=k, first_diff_at=d, fresh=impl[max(0, d - 2):d + 3],
+                                                                       after=impl3[max(0, d - 2):d + 3]), len(impl), None
         exp, rest = ref.batches(model)
         exp = [[x[2] for x in b] for b in exp]
         if rest or got != exp:
